@@ -94,6 +94,9 @@ type ParseCall struct {
 	Status      int    `json:"status"`
 	ContentType string `json:"content_type"`
 	Body        string `json:"body"`
+	// how the reply is framed: "length" (Content-Length = len(body)), "chunked" (length unknown, -1), "head" (the reply to
+	// a HEAD request: Content-Length says what a GET would carry, the body is empty); empty = "length"
+	Framing string `json:"framing,omitempty"`
 }
 
 type RoundTrip struct {
@@ -236,6 +239,19 @@ func run(pkgs map[string]Package, sc *Scenario) (res Result) {
 		hr := &http.Response{StatusCode: sc.Parse.Status, Status: fmt.Sprintf("%d x", sc.Parse.Status), Header: http.Header{}, Body: io.NopCloser(strings.NewReader(sc.Parse.Body))}
 		if sc.Parse.ContentType != "" {
 			hr.Header.Set("Content-Type", sc.Parse.ContentType)
+		}
+		hr.ContentLength = int64(len(sc.Parse.Body))
+		switch sc.Parse.Framing {
+		case "chunked":
+			hr.ContentLength = -1
+			hr.TransferEncoding = []string{"chunked"}
+		case "head":
+			hr.Request = &http.Request{Method: http.MethodHead}
+			hr.Body = http.NoBody
+			hr.Header.Set("Content-Length", fmt.Sprint(len(sc.Parse.Body)))
+		}
+		if sc.Parse.Framing != "chunked" && sc.Parse.Framing != "head" {
+			hr.Header.Set("Content-Length", fmt.Sprint(len(sc.Parse.Body)))
 		}
 		outs := reflect.ValueOf(fn).Call([]reflect.Value{reflect.ValueOf(hr)})
 		if e, _ := outs[1].Interface().(error); e != nil {
@@ -414,7 +430,9 @@ func serve(p Package, sc *Scenario, req *http.Request, res *Result) {
 	rec := httptest.NewRecorder()
 	h.ServeHTTP(rec, again())
 	res.Status = rec.Code
-	res.RespHeader = rec.Header()
+	// the headers as they went on the wire: the recorder's snapshot at WriteHeader / first Write, not the live map
+	// (a header set after the status was written never reaches a client)
+	res.RespHeader = rec.Result().Header
 	res.RespBody = rec.Body.String()
 	res.Trace = t.Events
 }
